@@ -254,8 +254,10 @@ def evaluate_variables(
             value = expr_parser.evaluate(expr, ctx)
             result[name.lower()] = value
         except expr_parser.ExpressionError:
-            # Variable evaluation failed, set to None
-            result[name.lower()] = None
+            # Variable evaluation failed: leave it undefined, so that a filter using it cannot
+            # be evaluated either and excludes the merchant (as None it would read as false,
+            # and `not broken_var` would include every merchant)
+            result.pop(name.lower(), None)
 
     return result
 
@@ -292,7 +294,9 @@ def evaluate_section_filter(
             variables,
             period_data,
         )
-        variables.update(local_vars)
+        # local_vars is the globals plus this view's variables (minus any that could not be
+        # evaluated: those must not fall back to a global of the same name)
+        variables = local_vars
 
     # Evaluate the filter
     ctx = expr_parser.create_context(
